@@ -279,6 +279,9 @@ NestKinds == [
   assoc  |-> [core |-> <<"1">>, nts |-> {"OU32"}, open |-> <<"1", "+">>, close |-> <<>>],
   ifb    |-> [core |-> <<"break">>, nts |-> {"Stmt"}, open |-> <<"if", "t", "{">>, close |-> <<";", "}">>],
   whileb |-> [core |-> <<"break">>, nts |-> {"Stmt"}, open |-> <<"while", "t", "{">>, close |-> <<";", "}">>],
+  iterb  |-> [core |-> <<"break">>, nts |-> {"Stmt"},
+              open |-> <<"iterate", "(", "p", "=", "s", ")", "(", "length", ":", "1", ",", "advance", ":", "1", ",", "unroll", ":", "1", ")", "{">>,
+              close |-> <<";", "}">>],
   elif   |-> [core |-> <<>>, nts |-> {"ElsePart"}, open |-> <<"else", "if", "t", "{", "}">>, close |-> <<>>],
   iolim  |-> [core |-> <<"break">>, nts |-> {"Stmt"}, open |-> <<"io_limit", "(", "io", ":", "args", ".", "src", ",", "limit", ":", "0", ")", "{">>,
               close |-> <<";", "}">>],
